@@ -20,7 +20,7 @@ import itertools
 import json
 import os
 
-from common import Check, LeanDriver, ddmin, from_wire, rng
+from common import Check, LeanDriver, VERIF, ddmin, from_wire, rng
 import gen_rf678 as g
 
 PREFIX = "C6"
@@ -238,7 +238,8 @@ def function_test_case(r) -> dict:
     namespaced = r.random() < 0.8
     p = {"namespaced": namespaced, "tmplForm": "inline", "edits": [], "benign": [l for l in ("ov0",) if r.random() < 0.3],
          "flags": {"owned": r.random() < 0.7}, "nameVia": r.random() < 0.5, "nsVia": namespaced and r.random() < 0.5,
-         "functionTest": {"namespace": r.random() < 0.4, "currentResource": r.random() < 0.85}}
+         "functionTest": {"namespace": r.random() < 0.4, "currentResource": r.random() < 0.85,
+                          "order": r.choice(("between", "between", "test-first-reprepare", "test-first-another"))}}
     for layer in g.LAYERS:
         if r.random() < 0.2:
             p["edits"].append({"layer": layer, "kind": r.choice(KINDS), "via": r.random() < 0.4})
@@ -252,9 +253,8 @@ def run_session(case: dict) -> list:
     out = []
     for first in (True, False):
         if per_pass and not first:
-            # prepare -> FunctionTest -> reconcile is one sequence; the update-path pass starts it afresh with a
-            # kind of its own.  (Re-preparing a function AFTER a FunctionTest of its kind ran is a different
-            # sequence, which fails on the unchanged tree: see notes/C06.md, "reuseKind".)
+            # a FunctionTest session is one sequence (prepare -> test -> reconcile, or test -> (re-)prepare ->
+            # reconcile); the update-path pass starts it afresh with a kind of its own
             progs = with_prefix(case["session"], fresh_prefix())
         for i, p in enumerate(progs):
             q = copy.deepcopy(p)
@@ -273,7 +273,11 @@ def session_bad(case: dict):
     for q, b in run_session(case):
         bad = oracle(q, b)
         if bad:
-            what = "after a FunctionTest of it ran in the process" if q.get("functionTest") else q.get("apiVersion")
+            order = (q.get("functionTest") or {}).get("order", "between")
+            what = {"between": "a FunctionTest of it ran between its prepare and this reconcile",
+                    "test-first-reprepare": "re-prepared after a FunctionTest of its kind ran in the process",
+                    "test-first-another": "prepared after a FunctionTest of its kind ran in the process"}[order] \
+                if q.get("functionTest") else q.get("apiVersion")
             return f"function {q['suffix']} ({what}): {bad}"
     return None
 
@@ -288,7 +292,8 @@ def shrink_session(case: dict) -> dict:
         else:
             i += 1
     for p in small["session"]:
-        for k, v in (("edits", []), ("benign", []), ("tmplForm", "inline"), ("nameVia", False), ("nsVia", False)):
+        for k, v in (("edits", []), ("benign", []), ("tmplForm", "inline"), ("nameVia", False), ("nsVia", False),
+                     ("flags", {"owned": True})):
             if p.get(k) != v:
                 trial = copy.deepcopy(small)
                 trial["session"][small["session"].index(p)][k] = v
@@ -435,6 +440,18 @@ def run(tier: str) -> int:
     if tier == "thorough":
         ck.leanchecker()
 
+    # ---- corpus: minimised past failures first; every one must pass now
+    cdir = VERIF / "corpus" / "C06"
+    for f in (sorted(cdir.glob("*.json")) if cdir.is_dir() else []):
+        for v in json.loads(f.read_text()).get("violations", []):
+            case = v["case"]
+            ck.evaluated()
+            ck.count(f"corpus:{f.name}")
+            bad = session_bad(case) if "session" in case else concurrent_bad(case) if "concurrent" in case else \
+                oracle(case["prog"], g.run_program(case["prog"]))
+            if bad:
+                ck.violate(case, bad)
+
     r = rng("c06")
     progs = list(grid(full=(tier != "quick")))
     n_random = 300 if tier == "quick" else 5000
@@ -512,8 +529,9 @@ def run(tier: str) -> int:
     for k in range(n_sessions + n_ftests):
         case = session_case(r) if k < n_sessions else function_test_case(r)
         if k >= n_sessions:
-            ck.count("function-test-between:currentResource " +
-                     ("with" if case["session"][0]["functionTest"]["namespace"] else "without") + " namespace")
+            ft = case["session"][0]["functionTest"]
+            ck.count(f"function-test:{ft['order']}:currentResource " +
+                     ("with" if ft["namespace"] else "without") + " namespace")
         runs = run_session(case)
         try:
             s_answers = drv.ask([b["model"] for _, b in runs])
@@ -617,7 +635,9 @@ def run(tier: str) -> int:
              "apiVersion (group and/or version) prepared and reconciled one after the other in one process (request "
              "`version=`, body apiVersion and the reported resource id must be each function's own); plus functions that "
              "koreo's own FunctionTest runner tests (real prepare_function_test / run_function_test, currentResource with "
-             "or without metadata.namespace) between their prepare and their reconcile; plus groups of 2-3 "
+             "or without metadata.namespace) between their prepare and their reconcile, or BEFORE the function is "
+             "re-prepared / another function of the kind is prepared (garbage collector held off so that whatever the "
+             "test runner registered with kr8s is alive exactly then); plus groups of 2-3 "
              "reconciles of one kind (different names / namespaces, one function with different inputs or different "
              "functions) in flight together under the virtual-time loop with every API call suspending — every request "
              "must carry the identity of its own reconcile; non-trivial = a POST or PATCH was sent by a program with an "
